@@ -173,7 +173,46 @@ def _partition_problem(api, g, graph, items):
     return None
 
 
+def _scramble(x):
+    """A caller owns what a function hands back: empty every mutable container in a returned value."""
+    try:
+        if isinstance(x, (set, list, dict)):
+            for y in list(x.values()) if isinstance(x, dict) else list(x):
+                _scramble(y)
+            x.clear()
+        elif isinstance(x, tuple):
+            for y in x:
+                _scramble(y)
+    except Exception:
+        pass
+
+
+def _prime(api, au, graph, g, items, h):
+    """Earlier questions on the SAME graph object (answers and exceptions ignored, returned containers emptied by the
+    'caller'): every helper is a function of its arguments, so none of this may change a later answer."""
+    vs = [cfutil.build_variable(it) for it in items]
+    ev = _y0_event(items)
+    rot = ev[h % len(ev) :] + ev[: h % len(ev)]
+    calls = [
+        lambda: api.do_counterfactual_factor_factorization(variables=list(reversed(ev)), graph=graph),
+        lambda: api.do_counterfactual_factor_factorization(variables=rot, graph=graph),
+        lambda: [au.get_ancestors_of_counterfactual(v, graph) for v in vs],
+        lambda: au.get_ancestral_components(conditioned_variables=set(vs[: (h >> 4) % (len(vs) + 1)]), root_variables=set(vs), graph=graph),
+        lambda: api.simplify(event=list(ev), graph=graph),
+        lambda: [au.minimize_counterfactual(v, graph) for v in vs],
+        lambda: api.convert_to_counterfactual_factor_form(event=list(ev), graph=graph),
+    ]
+    k = 2 + (h >> 8) % 3
+    for i in range(k):
+        try:
+            _scramble(calls[(h >> (3 * i)) % len(calls)]())
+        except Exception:
+            pass
+
+
 def check(case, ignore_regions=False) -> Outcome:
+    import zlib
+
     from y0.algorithm.counterfactual_transport import ancestor_utils as au
     from y0.algorithm.counterfactual_transport import api
     from y0.dsl import CounterfactualVariable, Variable
@@ -182,6 +221,10 @@ def check(case, ignore_regions=False) -> Outcome:
     out = Outcome(key=op + "|" + graph_key(g) + "|" + cfutil.show(items) + "|" + str(case.get("n_conditioned")))
     labels = {"op:" + op} | {f for f in cfutil.features(g, items) if not f.startswith("worlds")}
     graph = build_graph(g)
+    h = zlib.crc32(out.key.encode())
+    if items and h % 3 == 0:
+        labels.add("history:other-helpers-asked-first-on-the-same-graph")
+        _prime(api, au, graph, g, items, h >> 2)
     out.sample = {"op": op, **graph_sample(g), "input": cfutil.show(items)}
     regions = set() if ignore_regions else open_regions(ID)
 
